@@ -1,2 +1,52 @@
-def run(res, tier, seed):
-    pass
+"""C01, store-API engine: the same histories on the four back ends in lock-step."""
+import hashlib
+import json
+
+from .. import runner
+from ..storemachine import run_store_program, store_program
+
+
+def run_one(program):
+    r = run_store_program(program)
+    st = r["stats"]
+    nt = st.get("ok:put", 0) >= 2 and st.get("ok:delete", 0) >= 1 and st.get("reopen", 0) >= 1 and any(k.startswith("refused:") for k in st)
+    return {
+        "ok": r["ok"],
+        "violation": r["violation"],
+        "stats": {"store:" + k: v for k, v in st.items()},
+        "nontrivial": nt,
+        "key": "store:" + hashlib.sha1(json.dumps(program, sort_keys=True).encode()).hexdigest(),
+        "size": len(program["steps"]),
+        "labels": ["engine:store"],
+        "sample": {"engine": "store", **program},
+    }
+
+
+def still_fails(sig):
+    def f(program):
+        r = run_store_program({"steps": program["steps"]})
+        return (not r["ok"]) and r["violation"]["sig"] == sig
+
+    return f
+
+
+def default_strategy():
+    return store_program()
+
+
+def run(res, tier, seed, examples=None, strategy=default_strategy, prefix="store"):
+    examples = examples or (25 if tier == "quick" else 400)
+    shards = runner.run_shards(runner.machine_shard, seed=seed + 7919, examples=examples, strategy_factory=strategy, run_one=run_one)
+    sub = runner.CheckResult(res.prop, tier, seed)
+    viols = runner.merge_machine(sub, shards)
+    res.evaluations += sub.evaluations
+    res.nontrivial |= sub.nontrivial
+    res.errors.extend(sub.errors)
+    res.samples.extend(sub.samples[:1])
+    res.extra["store_engine"] = {"programs": sub.evaluations, "nontrivial": len(sub.nontrivial), "stats": sub.extra.get("stats", {})}
+    for sig, v in viols.items():
+        prog = runner.ddmin_steps({"config": {}, "steps": v["case"]["steps"]}, still_fails(sig), budget=150)
+        rr = run_store_program({"steps": prog["steps"]})
+        detail = rr["violation"]["detail"] if not rr["ok"] else v["violation"]["detail"]
+        res.add_violation(f"store/{sig}", detail, {"engine": "store", "program": {"steps": prog["steps"]}})
+    return sub
